@@ -240,26 +240,18 @@ theorem valid_project_tasks_exactly_once {P : Proj} (hv : Valid P) (n : Nat) (s 
   · intro hf t ht
     exact (C01.task_handled_exactly_once (graphOf P) n s hr t).2 hf ht
 
-/-- **A test starts only after every test it depends on has finished** — in every reachable state in
-    which the test was not started by the keyboard-interrupt path (`forced`), in particular in every
-    non-interrupted state (`test_starts_after_its_dependencies`). -/
-theorem test_starts_after_its_dependencies_unforced {P : Proj} (hv : Valid P) {sv : SuiteView}
+/-- **A test starts only after every test it depends on has finished** — in every reachable state, a
+    keyboard interrupt at any moment included (a test released by `skip_all_tasks` is skipped, but still
+    only once the tests it depends on have finished). -/
+theorem test_starts_after_its_dependencies {P : Proj} (hv : Valid P) {sv : SuiteView}
     (hsv : sv ∈ allSuites P) {t : TestSpec} (ht : t ∈ sv.spec.tests) {d : Path} (hd : d ∈ t.deps)
     (n : Nat) (s : State TaskId) (hr : Reachable (graphOf P) n s)
-    (i : Nat) (hi : s.startAt ⟨.test, sv.path ++ [t.name]⟩ = some i)
-    (hf : s.forced ⟨.test, sv.path ++ [t.name]⟩ = false) :
+    (i : Nat) (hi : s.startAt ⟨.test, sv.path ++ [t.name]⟩ = some i) :
     ∃ j, s.finishAt ⟨.test, d⟩ = some j ∧ j < i := by
-  apply C04.deps_finished_before_start (graphOf P) n s hr _ i hi hf
+  apply C04.deps_finished_before_start (graphOf P) n s hr _ i hi
   apply succDeps_sub_deps
   rw [(test_waits_for_setup hv hsv ht).1]
   exact List.mem_cons_of_mem _ (List.mem_map_of_mem hd)
-
-theorem test_starts_after_its_dependencies {P : Proj} (hv : Valid P) {sv : SuiteView}
-    (hsv : sv ∈ allSuites P) {t : TestSpec} (ht : t ∈ sv.spec.tests) {d : Path} (hd : d ∈ t.deps)
-    (n : Nat) (s : State TaskId) (hr : Reachable (graphOf P) n s) (hna : s.aborted = false)
-    (i : Nat) (hi : s.startAt ⟨.test, sv.path ++ [t.name]⟩ = some i) :
-    ∃ j, s.finishAt ⟨.test, d⟩ = some j ∧ j < i :=
-  test_starts_after_its_dependencies_unforced hv hsv ht hd n s hr i hi (forced_false_of_not_aborted hr hna _)
 
 /-- … and a test that is *run* (not skipped) had every test it depends on end in success. -/
 theorem test_runs_only_if_dependencies_succeeded {P : Proj} (hv : Valid P) {sv : SuiteView}
@@ -271,29 +263,20 @@ theorem test_runs_only_if_dependencies_succeeded {P : Proj} (hv : Valid P) {sv :
   rw [(test_waits_for_setup hv hsv ht).1]
   exact List.mem_cons_of_mem _ (List.mem_map_of_mem hd)
 
-/-- **A test starts only after the setup of its suite is over**: after the suite setup task if there is
-    one, else after the suite beginning task (state not produced by the interrupt path for that test). -/
-theorem test_starts_after_suite_setup_unforced {P : Proj} (hv : Valid P) {sv : SuiteView}
-    (hsv : sv ∈ allSuites P) {t : TestSpec} (ht : t ∈ sv.spec.tests)
-    (n : Nat) (s : State TaskId) (hr : Reachable (graphOf P) n s)
-    (i : Nat) (hi : s.startAt ⟨.test, sv.path ++ [t.name]⟩ = some i)
-    (hf : s.forced ⟨.test, sv.path ++ [t.name]⟩ = false) :
-    ∃ j, s.finishAt (if hasInit P sv then (⟨.init, sv.path⟩ : TaskId) else ⟨.begin, sv.path⟩) = some j ∧ j < i := by
-  apply C04.deps_finished_before_start (graphOf P) n s hr _ i hi hf
-  apply succDeps_sub_deps
-  rw [(test_waits_for_setup hv hsv ht).1]
-  exact List.mem_cons_self
-
-/-- In a non-interrupted state: the suite was begun before the test started, and if the suite has a
-    setup task it finished before the test started. -/
+/-- **A test starts only after the setup of its suite is over** (every reachable state, interrupted or not):
+    the suite was begun before the test started, and if the suite has a setup task it finished before the
+    test started. -/
 theorem test_starts_after_suite_setup {P : Proj} (hv : Valid P) {sv : SuiteView}
     (hsv : sv ∈ allSuites P) {t : TestSpec} (ht : t ∈ sv.spec.tests)
-    (n : Nat) (s : State TaskId) (hr : Reachable (graphOf P) n s) (hna : s.aborted = false)
+    (n : Nat) (s : State TaskId) (hr : Reachable (graphOf P) n s)
     (i : Nat) (hi : s.startAt ⟨.test, sv.path ++ [t.name]⟩ = some i) :
     (∃ j, s.finishAt ⟨.begin, sv.path⟩ = some j ∧ j < i) ∧
     (hasInit P sv = true → ∃ j, s.finishAt ⟨.init, sv.path⟩ = some j ∧ j < i) := by
-  have hnf := forced_false_of_not_aborted hr hna
-  have hsetup := test_starts_after_suite_setup_unforced hv hsv ht n s hr i hi (hnf _)
+  have hsetup : ∃ j, s.finishAt (if hasInit P sv then (⟨.init, sv.path⟩ : TaskId) else ⟨.begin, sv.path⟩) = some j ∧ j < i := by
+    apply C04.deps_finished_before_start (graphOf P) n s hr _ i hi
+    apply succDeps_sub_deps
+    rw [(test_waits_for_setup hv hsv ht).1]
+    exact List.mem_cons_self
   cases hinit : hasInit P sv
   · rw [hinit] at hsetup
     exact ⟨hsetup, fun h => by cases h⟩
@@ -307,7 +290,7 @@ theorem test_starts_after_suite_setup {P : Proj} (hv : Valid P) {sv : SuiteView}
       apply succDeps_sub_deps
       rw [(init_waits_for_begin hv hsv hinit).1]
       exact List.mem_cons_self
-    exact C04.transitive_deps_finished_before_start (graphOf P) n s hr hnf _ _
+    exact C04.transitive_deps_finished_before_start (graphOf P) n s hr _ _
       (.trans h1 (.direct h2)) i hi
 
 /-! ### Non-vacuity: a project with nesting, an empty suite, a forward dependency and a session fixture -/
